@@ -14,8 +14,8 @@ from common import Report, say
 from hsim import batch, core, engines_more, histsim
 
 SIZES = {
-    "quick": {"probes": 5, "envs": 4, "histories": 32, "roundtrips": 4},
-    "thorough": {"probes": 40, "envs": 7, "histories": 1200, "roundtrips": 48},
+    "quick": {"probes": 5, "envs": 4, "histories": 32, "roundtrips": 4, "stalls": 4},
+    "thorough": {"probes": 40, "envs": 7, "histories": 1200, "roundtrips": 48, "stalls": 8},
 }
 
 
@@ -54,8 +54,21 @@ def phase_a(rep, tier, seed):
         for np_ in (2, 3):
             jobs.append((pi, f"np{np_}", ("par", dict(sc, np=np_, sched_seed=pi * 7 + np_),
                                           None, None)))
+        # a machine that stalls now and then (simulated clock): whichever refinement pass
+        # meets the stall, generation either raises FunctionTimedOut or gives the same grid
+        for k in range(sz["stalls"]):
+            clock = {"key": seed * 1000 + pi * 13 + k, "slowness": 1.0}
+            if k % 4 == 3:
+                clock["slow_prob"] = (2e-4, 1e-3)[(pi + k) % 2]
+            else:
+                clock["stall_at_timeout"] = (2, 3, 5, 7, 10, 14, 19, 25, 32, 40)[
+                    (pi * 3 + k + seed) % 10]
+            stalled = dict(sc, options=dict(sc["options"], refine_timeout=(1.0, 0.5)[k % 2]),
+                           clock=clock)
+            jobs.append((pi, f"stall{k}", ("par", stalled, None, None)))
     res = batch.map_chunks(_env_job, [j[2] for j in jobs], limit_s=900)
     by_probe = collections.defaultdict(list)
+    variant_sc = {(pi, label): job[1] for pi, label, job in jobs if job[0] == "par"}
     for (pi, label, _), r in zip(jobs, res):
         if label == "twice":
             by_probe[pi].append(("twice-1", r["first"]))
@@ -65,6 +78,7 @@ def phase_a(rep, tier, seed):
     fresh = {}
     n_cmp = 0
     refused = 0
+    stall_stats = collections.Counter()
     for pi, items in sorted(by_probe.items()):
         base = dict(items)["env0"]
         fresh[pi] = {"outcome": base["outcome"], "digest": base.get("digest")}
@@ -72,12 +86,16 @@ def phase_a(rep, tier, seed):
             refused += 1
         for label, r in items:
             n_cmp += 1
+            if label.startswith("stall"):
+                stall_stats[r["outcome"] + ":" + str(r.get("exc"))] += 1
+                if r["outcome"] == "raised" and r.get("exc") == "FunctionTimedOut":
+                    continue  # the stall was met and reported: nothing silent
             if (r["outcome"], r.get("digest")) != (base["outcome"], base.get("digest")):
                 fam = probes[pi]["family"] + ":" + probes[pi].get("geometry", "")
                 ei = int(label[3:]) if label.startswith("env") else None
                 rec = {"engine": "c14-env", "probe": probes[pi],
                        "envs": [envs[0], envs[ei]] if ei is not None else [envs[0]],
-                       "variant": label,
+                       "variant": label, "variant_scenario": variant_sc.get((pi, label)),
                        "violation": {"class": "ENV_DEPENDENCE",
                                      "detail": f"probe {pi} ({fam}) gives {r['outcome']}/"
                                                f"{r.get('digest')} under {label} but "
@@ -85,10 +103,11 @@ def phase_a(rep, tier, seed):
                                                "the baseline environment"}}
                 rep.violation(f"ENV:{fam}:{label.rstrip('0123456789-')}", rec,
                               text=rec["violation"]["detail"])
-    say(f"[C14/a] {len(probes)} probes x ({len(envs)} environments + twice + np2/np3): "
+    say(f"[C14/a] {len(probes)} probes x ({len(envs)} environments + twice + np2/np3 + {sz['stalls']} stalls): "
         f"{n_cmp} digests compared, {refused} probes refused")
     return probes, envs, fresh, {"probes": len(probes), "environments": len(envs),
-                                 "digests_compared": n_cmp, "probes_refused": refused}
+                                 "digests_compared": n_cmp, "probes_refused": refused,
+                                 "stalled_machine_variants": dict(stall_stats)}
 
 
 def _variant(sc, rng):
